@@ -25,6 +25,9 @@ def gen_atom(rng, ents, allow_old=True):
         return ["in", ent, sorted(rng.sample(VALUES, rng.randint(1, 3)))]
     if k < 0.70:
         return ["attr_eq", ent, rng.choice(ATTRS), rng.choice(ATTR_VALUES)]
+    if k < 0.72:
+        # a call of a pyscript function inside the expression (constant here: the entity never exists), next to a real atom
+        return ["and", ["fnconst"], gen_atom(rng, ents, allow_old)]
     if k < 0.74:
         # an atom that raises (ZeroDivisionError) unless the entity has the given value
         return ["div", ent, rng.choice(VALUES)]
@@ -61,6 +64,8 @@ def render(e) -> str:
         return f"{e[1]} in {e[2]!r}"
     if op == "attr_eq":
         return f"{e[1]}.{e[2]} == {e[3]}"
+    if op == "fnconst":
+        return "(not state.exist('pyscript.never_zz'))"
     if op == "div":
         return f"(10 // ({e[1]} == '{e[2]}'))"
     if op == "attr_val":
@@ -82,6 +87,8 @@ def render(e) -> str:
 def names(e, out=None) -> set:
     out = set() if out is None else out
     op = e[0]
+    if op == "fnconst":
+        return out
     if op in ("eq", "ne", "in", "div"):
         out.add(e[1])
     elif op in ("attr_eq", "attr_val"):
@@ -124,6 +131,8 @@ def truth(e, env, changed=None, old=None):
         return _val(env.get(e[1])) in e[2]
     if op == "attr_eq":
         return _attr(env.get(e[1]), e[2]) == e[3]
+    if op == "fnconst":
+        return True
     if op == "div":
         if _val(env.get(e[1])) == e[2]:
             return 10
